@@ -26,7 +26,7 @@ Theorem C12_define_effective : forall (legacy : bool) (ops : list op) (c : cid) 
   let s := run_ops all_off legacy ops init_st in
   loaded s c = true ->
   let s' := run_op all_off legacy s (OExec c [SDef f decl d]) in
-  (exists r, In r (s_funcs s') /\ f_gen r = s_next s /\ f_ctx r = c /\ f_name r = f /\ f_decl r = decl /\ f_bound r = true /\
+  (exists r, In r (s_funcs s') /\ f_gen r = s_next s /\ f_ctx r = c /\ f_name r = f /\ f_decl r = nodupN decl /\ f_bound r = true /\
              forall k, memN k (f_held r) = memN k decl && okf s c k) /\
   (forall k, okf s c k = false -> s_reg s' k = s_reg s k /\ s_owner s' k = s_owner s k /\ s_cnt s' k = s_cnt s k).
 Proof. exact define_effective. Qed.
